@@ -24,6 +24,9 @@ def run(rep, tier, seed):
             chk.run_config('hist3', consts(Cats=['A'], Metas=METAS_SMALL[2:3], Ops=['get', 'getmeta'], MaxSaves=3, MaxQueries=2,
                                            Probes=[False, True]),
                            cap=5000, rich=True)
+            # a category that contains the id separator itself
+            chk.run_config('slashcat', consts(Cats=['A/B', 'A'], Metas=METAS_SMALL[:1], Ops=['get', 'getmeta', 'unknown'],
+                                              MaxSaves=3, MaxQueries=2), cap=5000, rich=True)
         else:
             ex = chk.run_config('hist', consts(Cats=['A', 'AB', 'A_B'], Metas=METAS_SMALL[:3], Ops=['get', 'getmeta', 'unknown', 'mutate'],
                                                MaxSaves=2, MaxQueries=2), cap=300000, rich=True, n_seeds=3)
